@@ -355,6 +355,22 @@ def h_engine(params, env=None):
             return r
         first = params.get("first")
         steps = 0
+        if params.get("intake_fault"):
+            # one intake batch is cut short: the event stream of either side raises a temporary error after handing over k events (k = 0: never)
+            kf = e.choose("fault_after_events", 4)
+            armed = [kf > 0]
+            import cloudsync.exceptions as cex
+            for p_ in lab.p:
+                def ev(_o=p_.events):
+                    n = 0
+                    for x in _o():
+                        yield x
+                        n += 1
+                        if armed[0] and n == kf and not lab.user_mode:
+                            armed[0] = False
+                            raise cex.CloudTemporaryError("injected: event stream interrupted after %d events" % n)
+                p_.events = ev
+            hist.append("intake-fault-after=%d" % kf)
         for k in range(params["nops"]):
             if k == 0 and first is not None:
                 side, op = first
@@ -363,7 +379,7 @@ def h_engine(params, env=None):
                 op = OPS[e.choose("op", len(OPS))]
             d = do_op(lab, side, op, b"v%d" % k)
             hist.append((side,) + tuple(d))
-            for j in range(params["slots"]):
+            for j in range(params["slotsper"][k] if params.get("slotsper") else params["slots"]):
                 s = e.choose("slot", 4)
                 hist.append("s%d" % s)
                 if s < 3:
@@ -447,6 +463,10 @@ def jobs(tier):
             for op in OPS:
                 out.append({"harness": "engine", "params": {"flavour": f, "base": 2, "nops": 2, "slots": 1 if q else 2, "first": [side, op]},
                             "label": "engine/%s/first=%d:%s" % (f, side, op)})
+                if f in ("oid", "path"):
+                    # two operations pending in one batch, the intake of which is cut short by a temporary error after k events
+                    out.append({"harness": "engine", "params": {"flavour": f, "base": 2, "nops": 2, "slots": 1, "slotsper": [0, 1] if q else [1, 1], "intake_fault": True, "first": [side, op]},
+                                "label": "engine/%s/interrupted-intake/first=%d:%s" % (f, side, op)})
     return out
 
 
